@@ -29,6 +29,7 @@ import (
 
 	"github.com/miekg/dns"
 	"github.com/semihalev/sdns/config"
+	"github.com/semihalev/sdns/middleware/resolver"
 	"github.com/semihalev/sdns/zzverif/authsim"
 	"github.com/semihalev/sdns/zzverif/replycontract"
 	"github.com/semihalev/sdns/zzverif/vlib"
@@ -102,7 +103,14 @@ func main() {
 			rep = v
 		}
 		for i := 0; i < rep && r.Violations() == 0; i++ {
-			run.scenario(c.Index)
+			if c.Scenario != nil {
+				// the recorded scenario itself, not a re-generation: the
+				// case stays replayable when the generator changes
+				c.Scenario.Seed, c.Scenario.Index = r.Seed, c.Index
+				run.runScenario(c.Scenario)
+			} else {
+				run.scenario(c.Index)
+			}
 		}
 		r.Finish(rule)
 		return
@@ -322,30 +330,49 @@ func (run *runner) checkLeases(w *world) { run.checkLeasesAt(w, "") }
 // scripted server that is holding one of its queries): a referral whose
 // window is still open was observed no later than now.
 func (run *runner) checkLeasesAt(w *world, when string) {
-	lim := w.bounds(false)
+	// Read the stored state FIRST and derive the bounds afterwards: when this
+	// runs next to a resolution in flight, a lease stored between the two
+	// steps stems from an observation that lies before the instant the bounds
+	// use as "now" for referrals whose window is still open.
+	type stored struct {
+		j  int
+		cd bool
+		l  resolver.VerifC08Lease
+	}
+	var all []stored
+	for j := 1; j <= w.depth(); j++ {
+		for _, cd := range []bool{false, true} {
+			if l := w.rs.Handler.VerifC08Lease(w.apex[j], cd); l.Present {
+				all = append(all, stored{j, cd, l})
+			}
+		}
+	}
+	lims := map[bool]limits{false: w.boundsFor(false, false), true: w.boundsFor(false, true)}
 	w.mu.Lock()
 	sk := w.sk
 	w.mu.Unlock()
-	for j := 1; j <= w.depth(); j++ {
-		for _, cd := range []bool{false, true} {
-			l := w.rs.Handler.VerifC08Lease(w.apex[j], cd)
-			if !l.Present {
-				continue
+	for _, st := range all {
+		j, cd := st.j, st.cd
+		bound := lims[cd].lease[j]
+		run.r.Count("leases_inspected", 1)
+		if cd {
+			run.r.Count("leases_inspected_cd1_partition", 1)
+		}
+		run.r.Eval(1)
+		expV := st.l.ExpiresAt.Sub(w.t0) + sk
+		if expV > bound {
+			formula := "min(NS TTL, DS TTL, ancestors, 12h)"
+			if cd {
+				formula = "min(NS TTL, ancestors, 12h) [CD=1 partition]"
 			}
-			run.r.Count("leases_inspected", 1)
-			run.r.Eval(1)
-			expV := l.ExpiresAt.Sub(w.t0) + sk
-			if expV > lim.lease[j] {
-				j, cd := j, cd
-				run.viol(vlib.Sig("lease", "stored-deadline-exceeds-grant"),
-					fmt.Sprintf("delegation of %s stored until V=%v although min(NS TTL, DS TTL, ancestors, 12h) from the latest referral observation window ends at V=%v (%v too long%s) [%s]", w.apex[j], expV.Round(time.Millisecond), lim.lease[j].Round(time.Millisecond), (expV - lim.lease[j]).Round(time.Microsecond), when, w.sc.Shape()),
-					func() CaseSpec {
-						c := run.caseOf(w, nil, nil)
-						c.Note = fmt.Sprintf("delegation cache entry for %s (cd=%v) expires at virtual %v, but no referral sent so far grants a lease past %v%s", w.apex[j], cd, expV, lim.lease[j], when)
-						c.Bound = lim.lease[j].String()
-						return c
-					})
-			}
+			run.viol(vlib.Sig("lease", "stored-deadline-exceeds-grant"),
+				fmt.Sprintf("delegation of %s (cd=%v) stored until V=%v although %s from the latest referral observation window ends at V=%v (%v too long%s) [%s]", w.apex[j], cd, expV.Round(time.Millisecond), formula, bound.Round(time.Millisecond), (expV - bound).Round(time.Microsecond), when, w.sc.Shape()),
+				func() CaseSpec {
+					c := run.caseOf(w, nil, nil)
+					c.Note = fmt.Sprintf("delegation cache entry for %s (cd=%v) expires at virtual %v, but no referral sent so far grants a lease past %v%s", w.apex[j], cd, expV, bound, when)
+					c.Bound = bound.String()
+					return c
+				})
 		}
 	}
 }
@@ -379,12 +406,14 @@ func (run *runner) checkCuts(w *world) {
 	if ch == nil || w.changed {
 		return
 	}
-	lim := w.bounds(false)
+	dump := ch.VerifStore().VerifDump()
+	lims := map[bool]limits{false: w.boundsFor(false, false), true: w.boundsFor(false, true)}
 	w.mu.Lock()
 	sk := w.sk
 	w.mu.Unlock()
-	for _, e := range ch.VerifStore().VerifDump() {
+	for _, e := range dump {
 		j := w.answerLevel(e.Question, e.Qtype)
+		lim := lims[e.CD]
 		if j == 0 || lim.lease[j] < 0 {
 			continue
 		}
@@ -534,9 +563,14 @@ func (w *world) hotRound(rng *rand.Rand) []probe {
 // ---- one scenario -----------------------------------------------------------
 
 func (run *runner) scenario(index int) {
+	run.runScenario(genScenario(run.r.RandN("scenario", index), run.r.Seed, index))
+}
+
+// runScenario executes one scenario. Every random decision taken while it
+// runs comes from the stream keyed by (seed, "run", sc.Index).
+func (run *runner) runScenario(sc *Scenario) {
 	r := run.r
-	gen := r.RandN("scenario", index)
-	sc := genScenario(gen, r.Seed, index)
+	index := sc.Index
 	rng := r.RandN("run", index)
 	w := buildWorld(sc)
 	defer w.u.Close()
